@@ -60,7 +60,9 @@ chk('C05', 'exploration',
 chk('C06', 'exploration',
     'Every acknowledgement produced by hundreds of faulty, hostile (other delimiters, data containing ~ * : ^, 1-200 character echoes), many-error, missing-control-number and mutated inputs is '
     'checked for completeness, tokenised independently and recounted, re-read by the real reader, checked for foreign segments / extra elements / AK2 count against the error tree, and fed '
-    'back to the real validator (no map-not-found; accepted when every copied value fits the 997/999 definitions). Held on the acknowledgements produced.',
+    'back to the real validator (no map-not-found; accepted when every copied value fits the 997/999 definitions); the segment order must spell the 997/999 grammar; inputs also include envelope soups, '
+    'envelope values holding the acknowledgement\'s delimiters and acknowledgement groups (GS01=FA) in front of ordinary groups; the command-line validator (several files per invocation, options -x / -m) must '
+    'write the same acknowledgements. Held on the acknowledgements produced.',
     'Trusted: vlib/ref_ack.py, vlib/ref_envelope.py and the conservative fits_definitions() table in checks/c06.py.',
     'runtime monitoring of generated acknowledgements: independent recount + re-read + re-validation', 'DESIGN.md 5 C06')
 chk('C12', 'exploration',
